@@ -23,7 +23,7 @@ Assigns \a _arg to \a _optional and returns a reference to \a _arg.
 */
 template <typename Element, typename Arg>
 [[nodiscard]] inline Element &assign(fcppt::optional::object<Element> &_optional, Arg &&_arg)
-requires std::is_same_v<Element, std::remove_cv_t<Arg>>
+requires std::is_same_v<Element, std::remove_cvref_t<Arg>>
 {
   _optional = fcppt::optional::object<Element>(std::forward<Arg>(_arg));
 
